@@ -332,6 +332,7 @@ func (ex *Exec) keeperCall(st *State, name, short, method string, sig *types.Sig
 		nx := mk("cmd_", SXState, -1)
 		w.E = ECons(eff, w.E)
 		w.X = nx
+		ex.recordEffect(wid)
 	}
 	var ret Val
 	switch len(rets) {
